@@ -70,12 +70,19 @@ class Scheduler(Device, OutMixIn):
         flow_id = packet.flow_id
         self.queue_count[flow_id] -= 1
         self.queue_byte_size[flow_id] -= packet.size
+        # the discipline's own bookkeeping belongs to the same action as the
+        # counters: the next packet may arrive before run() is resumed
+        self.packet_departed(packet)
         if self.out:
             self.dprint(
                 f"sent out packet {packet.packet_id} from flow {packet.flow_id} "
             )
             self.out.put(packet)
         self.current_packet = None
+
+    def packet_departed(self, packet: Packet):
+        """Called when a transmission ends, right after the counters have been
+        updated and before the packet is handed downstream."""
 
     def add_packet_to_queue(self, packet: Packet):
         """Add packet to subqueue according to its packet ID.
